@@ -1,5 +1,6 @@
 import Chrono.Drv.Util
 import Chrono.Model.Round
+import Chrono.Model.RoundDT
 import Chrono.Spec.RoundSpec
 namespace Chrono.Drv.Round
 open Chrono Chrono.M Chrono.M.Round Chrono.Drv
@@ -25,6 +26,33 @@ def onDt (op : Op) (args : List String) : String :=
     | .ok e => showRR e
   | _ => bad
 
+def showErr : RoundingError → String
+  | .DurationExceedsTimestamp => "err DurationExceedsTimestamp"
+  | .DurationExceedsLimit => "err DurationExceedsLimit"
+  | .TimestampExceedsLimit => "err TimestampExceedsLimit"
+
+def showDT (x : NaiveDT) : String := s!"{x.date.yof} {x.time.secs} {x.time.frac}"
+
+/-- value level, `NaiveDateTime`: packed date word, seconds of day, nanosecond field, duration -/
+def onNaive (op : Op) (args : List String) : String :=
+  match ints? args with
+  | some [y, s, f, ds, dn] =>
+    match naive_duration op ⟨⟨y⟩, ⟨s, f⟩⟩ ⟨ds, dn⟩ with
+    | .panic => "panic"
+    | .ok (.ok v) => s!"ok {showDT v}"
+    | .ok (.err e) => showErr e
+  | _ => bad
+
+/-- value level, `DateTime<FixedOffset>`: UTC reading as above, offset, duration -/
+def onZoned (op : Op) (args : List String) : String :=
+  match ints? args with
+  | some [y, s, f, o, ds, dn] =>
+    match zoned_duration op ⟨⟨⟨y⟩, ⟨s, f⟩⟩, o⟩ ⟨ds, dn⟩ with
+    | .panic => "panic"
+    | .ok (.ok v) => s!"ok {showDT v.utc} {v.off}"
+    | .ok (.err e) => showErr e
+  | _ => bad
+
 def onNs (op : Op) (stamp span : String) : String :=
   match optInt? stamp, optInt? span with
   | some st, some sp => showRes showRR (run op st sp)
@@ -36,6 +64,13 @@ def handle (op : String) (args : List String) : Option String :=
   | "rd.trunc", a => some (onDt .trunc a)
   | "rd.round", a => some (onDt .round a)
   | "rd.up", a => some (onDt .up a)
+  -- value level: the whole call, result = the returned value
+  | "rd.n.trunc", a => some (onNaive .trunc a)
+  | "rd.n.round", a => some (onNaive .round a)
+  | "rd.n.up", a => some (onNaive .up a)
+  | "rd.z.trunc", a => some (onZoned .trunc a)
+  | "rd.z.round", a => some (onZoned .round a)
+  | "rd.z.up", a => some (onZoned .up a)
   -- integer level: stamp|none span|none
   | "rd.ns.trunc", [s, p] => some (onNs .trunc s p)
   | "rd.ns.round", [s, p] => some (onNs .round s p)
